@@ -5,6 +5,6 @@ HJ(h) == IF h.k = "f" THEN h.v ELSE IF h.k = "d" THEN "D" ELSE IF h.k = "n" THEN
 ToJ(idx) == [k \in Keys |-> [m |-> idx[k].m, h |-> HJ(idx[k].h)]]
 Out(_u) == [keys |-> Keys, parent |-> Parent, indexes |-> {ToJ(i) : i \in AllIndexes}]
 ASSUME JsonSerialize(IOEnv.GEN_OUT, Out(0))
-GenInit == pc = "gen" /\ old = EmptyIdx /\ new = EmptyIdx /\ opts = [unchanged |-> FALSE] /\ queue = <<>> /\ out = {}
+GenInit == pc = "gen" /\ old = EmptyIdx /\ new = EmptyIdx /\ opts = [unchanged |-> FALSE, key |-> "none"] /\ queue = <<>> /\ out = {}
 GenNext == UNCHANGED vars
 =============================================================================
